@@ -248,6 +248,7 @@ def check_result(ctx, r, res):
 
 
 def search(ctx):
+    G.check_generate_ite(ctx)
     rng = ctx.rng('search')
     for k in range(ctx.scale(400, 5000)):
         r = gen_request(ctx, rng, big=False)
